@@ -104,6 +104,13 @@ def gen(ctx):
                               label="failing user-space write"))
             cases.append(Case(64 * B, data=[(0, B), (20 * B, 24 * B), (60 * B, 64 * B)], driver=driver, workers=2, bs=bs, reflink="never",
                               plan=[("fail", EIO, 0, "copy_file_range", 2, "{dst}")], label="failing kernel copy, sparse source"))
+    # ... and when OPENING or creating the file failed: nothing at the destination is a file that `differs`
+    for driver in ("parfile", "parblock"):
+        for (errno, which) in [(2, "{dst}"), (2, "{src}"), (13, "{dst}"), (24, "{src}"), (20, "{dst}")]:
+            if quick and rng.random() < 0.4:
+                continue
+            cases.append(Case(3 * B + 7, driver=driver, workers=rng.choice([1, 2]), bs=rng.choice([B, "noprogress"]), reflink="never",
+                              plan=[("fail", errno, 0, "openat", 1, which)], label="failing open / create"))
     if not quick:
         for _ in range(1500):
             bs = rng.choice(bss)
@@ -141,6 +148,77 @@ def run(ctx, out):
                 "transfers, or sparse, or overwriting, or a capped kernel; distinct = distinct case tuple")
     datapath.run_cases(ctx, out, gen(ctx), "C01", oracle, nontrivial)
     run_several_sources(ctx, out)
+    run_unreachable_and_vanishing(ctx, out)
+
+
+def run_unreachable_and_vanishing(ctx, out):
+    """exit 0 promises every selected file at its destination — also when the destination path cannot be created (a missing
+    parent directory) and when files of the tree are renamed away by someone else while the copy is under way (then the run
+    must fail: the file was selected, it is not at its destination)"""
+    import time
+    import core
+    rng = ctx.rng
+    quick = ctx.tier == "quick"
+    sup = core.build_sup()
+    d0 = ctx.work.fresh("c01gone")
+    k = 0
+    for driver in ("parfile", "parblock"):
+        for tail in (["a.bin", "nosuchdir/a.bin"], ["a.bin", "nosuchdir/deeper/"], ["-r", "tree", "nosuchdir/sub/tree"]):
+            k += 1
+            d = os.path.join(d0, "u%d" % k)
+            os.makedirs(os.path.join(d, "tree"))
+            open(os.path.join(d, "a.bin"), "wb").write(b"A" * 70000)
+            open(os.path.join(d, "tree", "t.bin"), "wb").write(b"T" * 5000)
+            argv = [ctx.bins["xcp"], "--driver", driver, "-w", "2"] + tail
+            r = xcp.run_plain(argv, d)
+            out.case(("missing-parent", driver, tuple(tail)), True)
+            out.count("destination_parent_missing")
+            if r.exit == 0:
+                want = [("a.bin", tail[-1] if not tail[-1].endswith("/") else tail[-1] + "a.bin")] if tail[0] != "-r" else [("tree/t.bin", "nosuchdir/sub/tree/t.bin")]
+                for a, b in want:
+                    if not datapath.files_equal(os.path.join(d, a), os.path.join(d, b)):
+                        out.violation("exit 0 but %s, the mapped destination of %s, is missing or differs (its parent directory did not exist)" % (b, a),
+                                      dict(argv=argv[1:], exit=r.exit, stderr=r.stderr[-300:]))
+            shutil.rmtree(d, ignore_errors=True)
+    # files renamed away during the run: the first data call is held, the environment acts, the run goes on
+    for driver in ("parfile", "parblock"):
+        for w in ((1,) if quick else (1, 2, 4)):
+            for how in ("rename", "unlink"):
+                k += 1
+                d = os.path.join(d0, "v%d" % k)
+                os.makedirs(os.path.join(d, "src", "sub"))
+                names = ["f%d.bin" % i for i in range(8)] + ["sub/g%d.bin" % i for i in range(4)]
+                for i, nme in enumerate(names):
+                    open(os.path.join(d, "src", nme), "wb").write(bytes([65 + i]) * (66000 + i))
+                victims = [n for i, n in enumerate(names) if i % 2 == 1]
+                acted = []
+
+                def env(d=d, victims=victims, how=how, acted=acted):
+                    t0 = time.time()
+                    while time.time() - t0 < 20 and not os.path.isdir(os.path.join(d, "dst", "sub")):
+                        time.sleep(0.005)
+                    for v in victims:
+                        try:
+                            if how == "rename":
+                                os.rename(os.path.join(d, "src", v), os.path.join(d, "src", v + ".moved"))
+                            else:
+                                os.unlink(os.path.join(d, "src", v))
+                            acted.append(v)
+                        except OSError:
+                            pass
+                argv = [ctx.bins["xcp"], "-r", "-T", "--driver", driver, "-w", str(w), "--block-size", "65536", "src", "dst"]
+                rules = [("hold", 1500, 0, "copy_file_range", 1, "*")]
+                r = xcp.run_supervised(sup, argv, d, d, rules=rules, tag="v", timeout_ms=60000, during=env, during_delay=0.0)
+                out.case(("vanishing-sources", driver, w, how), nontrivial=bool(acted))
+                out.count("sources_vanishing_during_the_run")
+                if r.exit == 0:
+                    missing = [n for n in names if not os.path.exists(os.path.join(d, "dst", n))]
+                    if missing:
+                        out.violation("exit 0 but %d selected files are not at their destination (%s): they were %sd by another process after "
+                                      "the walk had selected them" % (len(missing), missing[:3], how),
+                                      dict(argv=argv[1:], rules=rules, environment="%s of %s once dst/sub exists" % (how, victims), exit=r.exit,
+                                           stderr=r.stderr[-300:]))
+                shutil.rmtree(d, ignore_errors=True)
 
 
 def run_several_sources(ctx, out):
